@@ -42,6 +42,7 @@ fn glide_op(fs: f32) -> BoxedStrategy<GlideOp> {
         4 => (1u32..=8).prop_map(GlideOp::Run),
         4 => (1u32..=3000).prop_map(GlideOp::Run),
         2 => Just(GlideOp::RunSettle),
+        1 => (glide_time(fs), glide_time(fs), proptest::sample::select(vec![255u16, 256, 257, 512, 20, 3])).prop_map(|(a, b, n)| GlideOp::TimeBurst { a, b, n }),
     ]
     .boxed()
 }
@@ -90,6 +91,8 @@ pub fn c14_case(max_n: f64) -> BoxedStrategy<C14Case> {
     enum El {
         Abs(f32),
         Creep(f32),
+        /// back to the time requested `k` calls ago, plus `d`
+        Back(u8, f32),
     }
     let el = prop_oneof![
         3 => (0.0f32..=10.0).prop_map(El::Abs),
@@ -97,6 +100,7 @@ pub fn c14_case(max_n: f64) -> BoxedStrategy<C14Case> {
         6 => prop_oneof![0.0255f32..0.0495, -0.0495f32..-0.0255].prop_map(El::Creep),
         2 => prop_oneof![0.0505f32..0.2, -0.2f32..-0.0505].prop_map(El::Creep),
         1 => (-0.02f32..0.02).prop_map(El::Creep),
+        3 => (1u8..4, prop_oneof![1 => Just(0.0f32), 3 => -0.06f32..0.06]).prop_map(|(k, d)| El::Back(k, d)),
     ];
     let hist = (sample_rate(48_000.0), proptest::collection::vec(el, 1..40), proptest::collection::vec(0u8..20, 0..40), base_delta()).prop_map(|(fs, els, gaps, (_, delta))| {
         let mut calls = vec![];
@@ -105,6 +109,11 @@ pub fn c14_case(max_n: f64) -> BoxedStrategy<C14Case> {
             cur = match e {
                 El::Abs(t) => t,
                 El::Creep(d) => (cur + d).clamp(0.0, 10.0),
+                El::Back(k, d) => {
+                    let n = calls.len();
+                    let base = if n > k as usize { calls[n - 1 - k as usize] } else { cur };
+                    (base + d).clamp(0.0, 10.0)
+                }
             };
             calls.push(cur);
         }
